@@ -72,7 +72,8 @@ def plan(thorough):
                     partner = regslots[pos + 1][1]
                 out.append((f, base, kind, idx, partner))
                 # the same class on the E profile, where x16..x31 do not exist: every integer register slot is a constrained one there
-                if arch == "riscv" and kind == "X":
+                # (floating point slots too: the E profile halves the INTEGER file only, f16..f31 exist and must be accepted at run time as literally)
+                if arch == "riscv" and kind in ("X", "F"):
                     ekey = ("riscv-e", kind, sig(c), pos, tuple(sig(f.constraints[i]) for i in dep)) if not thorough else ("riscv-e", fi, idx)
                     if ekey not in seen:
                         seen.add(ekey)
